@@ -1307,3 +1307,81 @@ def rescale_orientation(g):
     g.ob(f"{name}:placed-branch-gets-larger-share", ok,
          "forall p0 in [0,1]: share(placed edge) >= share(other edge) and the two shares sum to 1   (z3; " + how + ")",
          None if ok else f"counter-example p0 = {s.model()[p0]}: {how}")
+
+
+# ---------------------------------------------------------------------------------------------
+def demography_contract(g):
+    """C17 glue: the callers of _change_time_measure establish its precondition and pass the right triples."""
+    import z3
+    name = "demography.PopulationSizeHistory.__init__"
+    paths = g.trace(name)
+    if paths is not None:
+        def init(p):
+            if p.status != "return":
+                return None
+            conds = dict(p.conds)
+            need = ["not np.all(population_size > 0.0)", "not np.all(np.isfinite(population_size))",
+                    "not time_breaks.size == population_size.size - 1"]
+            for c in need:
+                hit = [k for k in conds if _norm(k) == _norm(c)]
+                if not hit or conds[hit[0]] is not False:
+                    return f"returns without having excluded `{c}`"
+            if ("time_breaks.size > 0", True) in p.conds:
+                for c in ["not np.all(time_breaks > 0.0)", "not np.all(np.diff(time_breaks) > 0.0)"]:
+                    hit = [k for k in conds if _norm(k) == _norm(c)]
+                    if not hit or conds[hit[0]] is not False:
+                        return f"returns without having excluded `{c}`"
+            tb = text_of(p.heap.get("self.time_breaks"))
+            ps = text_of(p.heap.get("self.population_size"))
+            if "np.append(" not in tb:
+                return "time_breaks is not [0] ++ user breaks"
+            if ps != "(2 Mult population_size.flatten(...)#" + ps.split("#")[-1] and "2 Mult" not in ps:
+                return f"population_size stored as {ps}, contract wants 2 * N (the integral of 1/(2N))"
+            cs = [ev for ev in p.events if ev["kind"] == "call" and ev["func"] == "self._change_time_measure"]
+            if len(cs) != 1 or [text_of(a) for a in cs[0]["args"]] != [tb, tb, ps]:
+                return "coalescent breaks are not _change_time_measure(time_breaks, time_breaks, population_size)"
+            if "self._change_time_measure(" not in text_of(p.heap.get("self.coalescent_breaks")) or \
+                    not text_of(p.heap.get("self.coalescent_breaks")).endswith("[1]") or \
+                    not text_of(p.heap.get("self.coalescent_rate")).endswith("[2]"):
+                return "coalescent_breaks / coalescent_rate are not results [1] and [2] of that call"
+            return None
+        g.forall_paths(f"{name}:establishes-precondition-and-stores-integral-at-breaks", paths, init,
+                       "sizes > 0 and finite, breaks > 0 and strictly increasing (adjacent), one more size than breaks; "
+                       "time_breaks = [0] ++ breaks; population_size = 2N; (coalescent_breaks, coalescent_rate) = "
+                       "_change_time_measure(time_breaks, time_breaks, 2N)[1:]")
+    for meth, want in (("to_coalescent_timescale", ["time_ago", "self.time_breaks", "self.population_size"]),
+                       ("to_natural_timescale", ["coalescent_time_ago", "self.coalescent_breaks", "self.coalescent_rate"])):
+        name = f"demography.PopulationSizeHistory.{meth}"
+        paths = g.trace(name)
+        if paths is None:
+            continue
+
+        def conv(p, want=want):
+            if p.status != "return":
+                return None
+            cs = [ev for ev in p.events if ev["kind"] == "call" and ev["func"] == "self._change_time_measure"]
+            if len(cs) != 1 or [text_of(a) for a in cs[0]["args"]] != want:
+                return f"does not call _change_time_measure{tuple(want)}"
+            if not text_of(p.result).endswith("[0]") or "self._change_time_measure(" not in text_of(p.result):
+                return "does not return the converted times (result [0])"
+            return None
+        g.forall_paths(f"{name}:is-change-time-measure-of-the-stored-history", paths, conv,
+                       f"returns _change_time_measure({', '.join(want)})[0]")
+    # as_dict round trip: stored 2N, as_dict gives (2N)/2, the constructor doubles again -- exact in binary64
+    x = z3.FP("x", z3.Float64())
+    two = z3.FPVal(2.0, z3.Float64())
+    rm = z3.RNE()
+    y = z3.fpMul(rm, two, x)
+    back = z3.fpMul(rm, two, z3.fpDiv(rm, y, two))
+    s = z3.Solver()
+    s.add(z3.Not(z3.fpIsNaN(x)), z3.Not(z3.fpIsInf(y)), z3.Not(z3.fpEQ(back, y)))
+    s.set("timeout", 120000)
+    r = s.check()
+    fn = extract.get_function("demography.PopulationSizeHistory.as_dict")
+    src = ast.unparse(fn.node)
+    shape_ok = "'population_size': list(self.population_size / 2)" in src and "ret_val['time_breaks'] = list(self.time_breaks[1:])" in src
+    g.ctx.functions.append({**fn.describe(), "mode": "G3 structural + z3 binary64 lemma"})
+    g.ob("demography.PopulationSizeHistory.as_dict:rebuilds-identical-history", shape_ok and r == z3.unsat,
+         "as_dict() = {population_size: stored/2, time_breaks: stored[1:]} and forall x: fl(2*fl(fl(2x)/2)) == fl(2x) unless "
+         "fl(2x) overflows (z3, bit-precise binary64), so the rebuilt object stores identical arrays",
+         None if (shape_ok and r == z3.unsat) else f"shape_ok={shape_ok}, lemma={r}")
